@@ -249,10 +249,12 @@ def run(ctx):
            'and the linear ramp 1 - (d - c0)/(c1 - c0) in between: a factor in [0, 1]', emod,
            ramp[1] if ramp else hbe)
 
+    hbe_params = func_params(hbe)
+
     def hbe_value(args, kwargs):
         """abs(dpka_max * ramp * f_angle) with ramp in [0,1] (idiom)."""
-        dp = args[1] if len(args) > 1 else kwargs.get('dpka_max', TOP)
-        fa = args[3] if len(args) > 3 else kwargs.get('f_angle', const(1.0))
+        dp = args[1] if len(args) > 1 else kwargs.get(hbe_params[1], TOP)
+        fa = args[3] if len(args) > 3 else kwargs.get(hbe_params[3], const(1.0))
         if not isinstance(dp, AV) or not isinstance(fa, AV):
             return AV(0, INF)
         m = max(abs(dp.lo), abs(dp.hi)) * max(abs(fa.lo), abs(fa.hi))
@@ -265,7 +267,7 @@ def run(ctx):
         defs = {norm(s.targets[0]): norm(s.value) for s in walk_no_nested(hbe)
                 if isinstance(s, ast.Assign)}
         expr = defs.get(inner, inner).replace(' ', '')
-        body_ok = sorted(expr.split('*')) == sorted(['dpka_max', ramp[0], 'f_angle'])
+        body_ok = sorted(expr.split('*')) == sorted([hbe_params[1], ramp[0], hbe_params[3]])
     ctx.ob('C16.R2', 'kernel:hydrogen_bond_energy-is-abs', body_ok,
            'hydrogen_bond_energy returns abs(dpka_max * ramp * f_angle): non-negative, the sign '
            'is applied by the caller', emod, rets[0] if rets else hbe)
